@@ -76,10 +76,14 @@ FrameClass(s, f) ==
   ELSE IF f.body = "zero" THEN "zero"
   ELSE "decode"
 
+NonOK(s) == "status" \in DOMAIN s /\ s.status # 200
+\* HTTPClient.Do itself failed: there is no response at all, whatever error it returned (also one that wraps io.EOF)
+DoErr(s) == "doerr" \in DOMAIN s /\ s.doerr
 (* How the stream ends when it stops inside / before frame i with `partial` bytes of it. *)
 CtxTails == {"ctxc", "ctxd"}
 TailClass(s, partial) ==
-  IF s.tail \in CtxTails THEN s.tail
+  IF DoErr(s) THEN "transport"
+  ELSE IF s.tail \in CtxTails THEN s.tail
   ELSE IF s.tail # "eof" THEN "transport"
   ELSE IF partial > 0 THEN "truncated"
   ELSE IF s.side = "handler" THEN "end"
@@ -108,12 +112,11 @@ Scan(s, i, acc) ==
           ELSE [out |-> acc, res |-> Final(s, c)]
 
 (* unary Connect: the whole body is one message; a clean cut cannot be seen (don't care) *)
-NonOK(s) == "status" \in DOMAIN s /\ s.status # 200
 RawExpect(s) ==
   LET f == s.frames[1] IN
   \* a non-200 unary Connect response is an error whatever its body holds (C06 decides which); the body is still
   \* peer-controlled data read under the same limit (C09: Bounded)
-  IF NonOK(s) THEN [out |-> <<>>, res |-> {"transport"}]
+  IF NonOK(s) \/ DoErr(s) THEN [out |-> <<>>, res |-> {"transport"}]
   ELSE IF s.limit > 0 /\ Avail(s) > s.limit THEN [out |-> <<>>, res |-> {"limit", "transport"} \cup (CtxTails \cap {s.tail})]
   ELSE IF s.tail \in CtxTails THEN [out |-> <<>>, res |-> {s.tail}]
   ELSE IF s.tail # "eof" THEN [out |-> <<>>, res |-> {"transport"}]
